@@ -22,7 +22,8 @@ RULE = ("bounded enumeration: every history of length <= 3 (quick 2) over {get A
         "requesting every URI; plus crash points: the n-th executed line of cache_object.py/remote_resources.py (all n) "
         "raises (exception-style crash) and, in a subprocess, os._exit(137) (true crash) - always followed by reopen; "
         "plus parallel requests of 6..12 URIs (several ThreadPool chunks) with not-found URIs and per-URI delays that "
-        "make later chunks complete first. "
+        "make later chunks complete first; plus the built-in https:// (requests.api.get replaced by an in-memory fake: "
+        "404/403/500/503/connection error) and file:// (missing source file) resources. "
         "distinct = (history, op index, fault kind, position, mode) ; non-trivial = a fault or crash was actually "
         "delivered (resource/monitor log).")
 ASSUMPTIONS = ["a crash is followed by a new FileCache on the same directory (no other recovery step exists)",
@@ -32,10 +33,11 @@ REQUIRED_MONITORS = ["C19.fault:request-omits-or-raises", "C19.fault:others-inta
                      "C19.retry:returned-bytes", "C19.reopen:served-bytes==resource-bytes",
                      "C19.reopen:len(cache)==cache-files-on-disk", "C19.validation:rejected-entry-refetched",
                      "C19.crash:reopen-serves-only-complete-files", "C19.exit-crash:reopen-serves-only-complete-files"]
-REQUIRED_REACH = ["cache_object.py:_download_from_resources", "cache_object.py:FileCache.get_cache_misses",
+REQUIRED_REACH = ["remote_resources.py:RemoteResourceHTTPS.download.<locals>._download_file_from_https",
+                  "remote_resources.py:RemoteResourceLocal.download.<locals>._copy_file", "cache_object.py:_download_from_resources", "cache_object.py:FileCache.get_cache_misses",
                   "cache_object.py:FileCache._initialize_cache"]
 REQUIRED_COUNTERS = {"C19.faults_delivered": 20, "C19.crash_points": 50, "C19.exit_crashes": 3,
-                     "C19.bigreq_completion_order_differs_from_request_order": 1}
+                     "C19.bigreq_completion_order_differs_from_request_order": 1, "C19.builtin_https_faults": 10}
 TIMEOUT = {"quick": 900, "thorough": 3600}
 OPS = {"gA": ["A"], "gAB": ["A", "B"], "gABC": ["A", "B", "C"], "reopen": None}
 FAULTS = ["notfound", "raise-before", "raise-half", "postprocess", "validation", "validation+notfound"]
@@ -55,7 +57,7 @@ def plan(tier, seed):
     shards += [{"mode": "crash", "history": h, "parallel": p}
                for h in (["gABC"], ["gA", "gABC"], ["gAB", "reopen", "gABC"]) for p in (False, True)]
     shards += [{"mode": "exit", "n": 6 if tier == "quick" else 40}]
-    shards += [{"mode": "bigreq", "n": 12 if tier == "quick" else 120}]
+    shards += [{"mode": "bigreq", "n": 12 if tier == "quick" else 120}, {"mode": "builtin"}]
     return shards
 
 
@@ -94,7 +96,7 @@ def install_directives(cache, state):
         pass
 
 
-def verify_reopen(ctx, lab, wit, tag, prop="C19", postprocess=False, keys=None):
+def verify_reopen(ctx, lab, wit, tag, prop="C19", postprocess=False, keys=None, expect=None):
     """new FileCache on the directory, request every URI (with the post-processing directive when the history
     used it: every served file must then be a *post-processed* one)"""
     lab.plan.clear()
@@ -114,11 +116,20 @@ def verify_reopen(ctx, lab, wit, tag, prop="C19", postprocess=False, keys=None):
     ok = len(paths) == len(keys)
     detail = None
     for k, p in zip(keys, paths):
-        want = cl.content(k) + (PP_MARK if postprocess else b"")
-        if not (os.path.exists(p) and cl.read_noatime(p) == want):
+        want = (expect(k) if expect else cl.content(k, lab.version[0] if False else "")) + (PP_MARK if postprocess else b"")
+        if expect is None and lab.version[0]:
+            # keys never fetched before the version change are fetched now
+            want = None
+        if want is None:
+            got_ = cl.read_noatime(p) if os.path.exists(p) else None
+            okk = got_ in (cl.content(k) + (PP_MARK if postprocess else b""), cl.content(k, lab.version[0]) + (PP_MARK if postprocess else b""))
+        else:
+            okk = os.path.exists(p) and cl.read_noatime(p) == want
+        if not okk:
             ok = False
             size = os.path.getsize(p) if os.path.exists(p) else None
-            detail = {"key": k, "served_size": size, "expected_size": len(want), "postprocess": postprocess}
+            detail = {"key": k, "served_size": size, "postprocess": postprocess,
+                      "served_is_stale_version": bool(os.path.exists(p) and cl.read_noatime(p) == cl.content(k) + (PP_MARK if postprocess else b""))}
     ctx.check(f"{prop}.{tag}", ok, wit, detail, key=f"{prop}:{tag}:poisoned")
     files = lab.disk_cache_files()
     ctx.check(f"{prop}.reopen:len(cache)==cache-files-on-disk", len(cache) == len(files), wit,
@@ -137,6 +148,10 @@ def fault_run(ctx, hist, op_index, pos, fault, strict, parallel, continuation, w
     state = {}
     mark = PP_MARK if fault == "postprocess" else b""
     pfx = "postprocess=pp:" if fault == "postprocess" else ""
+    refetched_v2 = set()  # keys that must hold the resource's *new* content
+
+    def want(k):
+        return cl.content(k, "v2" if k in refetched_v2 else "") + mark
     delivered = False
     try:
         cache = lab.open()
@@ -170,9 +185,11 @@ def fault_run(ctx, hist, op_index, pos, fault, strict, parallel, continuation, w
                 state["pp_target"] = target
             elif fault == "validation":
                 state["vv_target"] = target
+                lab.version[0] = "v2"  # the remote object changed: the rejected local copy is stale
             elif fault == "validation+notfound":
                 state["vv_target"] = target
                 lab.plan[target] = "notfound"
+                lab.version[0] = "v2"
             uris = [directive_uri(k, fault) if (k == target or fault == "postprocess") else cl.uri(k) for k in keys]
             raised, paths = None, None
             try:
@@ -196,11 +213,14 @@ def fault_run(ctx, hist, op_index, pos, fault, strict, parallel, continuation, w
                 return False
             ctx.count("C19.faults_delivered")
             ctx.count(f"C19.fault:{fault}")
+            if fault.startswith("validation"):
+                refetched_v2.add(target)  # rejected: whatever is served for it from now on must be a fresh fetch
+            refetched_v2.update(e[1] for e in lab.log if e[0] == "done" and len(e) > 3 and e[3] == "v2")
             # ---- judge the faulty request itself
             if fault == "validation":
                 refetched = "start" in evs
                 good = (raised is None and paths is not None and len(paths) == len(keys)
-                        and all(cl.read_noatime(p) == cl.content(k) for k, p in zip(keys, paths)))
+                        and all(cl.read_noatime(p) == want(k) for k, p in zip(keys, paths)))
                 ctx.check("C19.validation:rejected-entry-refetched", bool(refetched and good), wit,
                           {"refetched": refetched, "raised": repr(raised)}, key="C19:validation")
             else:
@@ -214,7 +234,7 @@ def fault_run(ctx, hist, op_index, pos, fault, strict, parallel, continuation, w
                                "expected": [cl.expected_name(k) for k in others]}, key="C19:fault:omit")
                     if good:
                         for k, p in zip(others, paths):
-                            ctx.check("C19.fault:others-intact", os.path.exists(p) and cl.read_noatime(p) == cl.content(k),
+                            ctx.check("C19.fault:others-intact", os.path.exists(p) and cl.read_noatime(p) == want(k),
                                       wit, {"key": k}, key="C19:fault:others")
                 else:
                     ctx.check("C19.fault:request-omits-or-raises", raised is not None, wit,
@@ -224,7 +244,7 @@ def fault_run(ctx, hist, op_index, pos, fault, strict, parallel, continuation, w
                 if k == target and fault.startswith("validation"):
                     continue
                 p = os.path.join(root, cl.expected_name(k))
-                ctx.check("C19.fault:others-intact", os.path.exists(p) and cl.read_noatime(p) == cl.content(k) + mark, wit,
+                ctx.check("C19.fault:others-intact", os.path.exists(p) and cl.read_noatime(p) == want(k), wit,
                           {"key": k, "previously-cached": True}, key="C19:fault:cached")
             # the failed URI must not be served as a hit now
             state.clear()
@@ -244,8 +264,9 @@ def fault_run(ctx, hist, op_index, pos, fault, strict, parallel, continuation, w
                 if fault != "validation":
                     ctx.check("C19.retry:fetched-afresh", target in started, wit,
                               {"contacted": started, "target": target, "raised": repr(raised2)}, key="C19:retry:afresh")
+                refetched_v2.update(e[1] for e in lab.log if e[0] == "done" and len(e) > 3 and e[3] == "v2")
                 good = raised2 is None and paths2 is not None and len(paths2) == len(keys) and all(
-                    os.path.exists(p) and cl.read_noatime(p) == cl.content(k) + mark for k, p in zip(keys, paths2))
+                    os.path.exists(p) and cl.read_noatime(p) == want(k) for k, p in zip(keys, paths2))
                 ctx.check("C19.retry:returned-bytes", bool(good), wit, {"raised": repr(raised2)}, key="C19:retry:bytes")
                 files = lab.disk_cache_files()
                 ctx.check("C19.reopen:len(cache)==cache-files-on-disk", len(cache) == len(files), wit,
@@ -257,7 +278,8 @@ def fault_run(ctx, hist, op_index, pos, fault, strict, parallel, continuation, w
                     files = lab.disk_cache_files()
                     ctx.check("C19.reopen:len(cache)==cache-files-on-disk", len(cache) == len(files), wit,
                               {"len": len(cache), "files": len(files), "where": "after fault"}, key="C19:fault:len")
-                verify_reopen(ctx, lab, wit, "reopen:served-bytes==resource-bytes", postprocess=bool(pfx))
+                verify_reopen(ctx, lab, wit, "reopen:served-bytes==resource-bytes", postprocess=bool(pfx),
+                              expect=lambda k: cl.content(k, "v2" if (lab.version[0] == "v2" and (k in refetched_v2 or k not in cached)) else ""))
             return True
     except Exception as e:
         import traceback
@@ -533,8 +555,161 @@ def gen_bigreq(rng):
     return {"keys": keys, "missing": missing, "slow": slow, "mode": mode}
 
 
+# ------------------------------------------------------------------ the built-in resources (https:// and file://)
+class _FakeResponse:
+    def __init__(self, status, body):
+        self.status_code, self.content, self.text = status, body, body.decode(errors="replace")[:50]
+
+    def raise_for_status(self):
+        import requests
+        if self.status_code >= 400:
+            raise requests.exceptions.HTTPError(f"{self.status_code} error", response=self)
+
+
+def builtin_runs(ctx, work):
+    """the default resources of FileCache: RemoteResourceHTTPS (requests.api.get replaced by an in-memory fake that
+    returns a status code and a body) and RemoteResourceLocal (file:// copy). An error response / a missing source
+    file is a failed fetch: nothing may be served for it, and a later request must fetch afresh."""
+    import requests
+    from ocean_science_utilities.filecache.cache_object import FileCache
+    root = os.path.join(work, "cache")
+    srcdir = os.path.join(work, "src")
+    real_get = requests.api.get
+    statuses = {}
+    calls = []
+
+    def fake_get(u, **kw):
+        key = u.rsplit("/", 1)[1]
+        calls.append(key)
+        st = statuses.get(key, 200)
+        if st == "connection-error":
+            raise requests.exceptions.ConnectionError("injected")
+        body = cl.content(key) if st == 200 else (b"<html>error %d</html>" % st) * 20
+        return _FakeResponse(st, body)
+
+    requests.api.get = fake_get
+    try:
+        for status in (404, 403, 500, 503, "connection-error"):
+            for tolerant in (True, False):
+                for parallel in (False, True):
+                    wit = {"builtin": "https", "status": status, "tolerant": tolerant, "parallel": parallel}
+                    import shutil
+                    shutil.rmtree(root, ignore_errors=True)
+                    statuses.clear()
+                    statuses["B"] = status
+                    ctx.case(("builtin-https", str(status), tolerant, parallel), nontrivial=True,
+                             sample=wit if status == 500 and tolerant and not parallel else None)
+                    ctx.count("C19.faults_delivered")
+                    ctx.count("C19.builtin_https_faults")
+                    with warnings.catch_warnings():
+                        warnings.simplefilter("ignore")
+                        cache = FileCache(root, 1e-3, parallel=parallel, allow_for_missing_files=tolerant)
+                        cache.disable_progress_bar = True
+                        uris = [f"https://host/bucket/{k}" for k in ("A", "B", "C")]
+                        raised, paths = None, None
+                        try:
+                            paths = cache[uris]
+                        except Exception as e:
+                            raised = e
+                            cl.quiesce()
+                        if raised is None:
+                            # the request returned: it must have omitted exactly B
+                            names = [os.path.basename(p) for p in paths]
+                            okp = len(paths) == 2 and all(cl.read_noatime(p) == cl.content(k) for k, p in zip(("A", "C"), paths))
+                            ctx.check("C19.fault:request-omits-or-raises", bool(okp), wit, {"returned": names},
+                                      key="C19:builtin:https:omit")
+                        else:
+                            ctx.check("C19.fault:request-omits-or-raises", True)
+                        # the remote recovers: everything must be fetched / served with the right bytes, B afresh
+                        statuses.clear()
+                        calls.clear()
+                        try:
+                            paths2 = cache[uris]
+                            good = all(cl.read_noatime(p) == cl.content(k) for k, p in zip(("A", "B", "C"), paths2))
+                            ctx.check("C19.retry:returned-bytes", bool(good and len(paths2) == 3), wit,
+                                      {"sizes": [os.path.getsize(p) for p in paths2]}, key="C19:builtin:https:retry")
+                            ctx.check("C19.retry:fetched-afresh", "B" in calls, wit, {"contacted": list(calls)},
+                                      key="C19:builtin:https:afresh")
+                        except Exception as e:
+                            ctx.check("C19.retry:returned-bytes", False, wit, {"exception": repr(e)}, key="C19:builtin:https:retry")
+                        # reopen (fresh fault first: fault -> reopen -> request)
+                        shutil.rmtree(root, ignore_errors=True)
+                        statuses["B"] = status
+                        cache = FileCache(root, 1e-3, parallel=parallel, allow_for_missing_files=tolerant)
+                        cache.disable_progress_bar = True
+                        try:
+                            cache[uris]
+                        except Exception:
+                            cl.quiesce()
+                        statuses.clear()
+                        cache = FileCache(root, 1e-3, parallel=parallel, allow_for_missing_files=tolerant)
+                        cache.disable_progress_bar = True
+                        try:
+                            paths3 = cache[uris]
+                            good = len(paths3) == 3 and all(cl.read_noatime(p) == cl.content(k) for k, p in zip(("A", "B", "C"), paths3))
+                            files = [n for n in os.listdir(root) if cl.is_cache_name(n)]
+                            ctx.check("C19.reopen:served-bytes==resource-bytes", bool(good), wit,
+                                      {"sizes": [os.path.getsize(p) for p in paths3]}, key="C19:builtin:https:reopen")
+                            ctx.check("C19.reopen:len(cache)==cache-files-on-disk", len(cache) == len(files), wit,
+                                      {"len": len(cache), "files": len(files)}, key="C19:builtin:https:len")
+                        except Exception as e:
+                            ctx.check("C19.reopen:served-bytes==resource-bytes", False, wit, {"exception": repr(e)},
+                                      key="C19:builtin:https:reopen")
+    finally:
+        requests.api.get = real_get
+    # ---- file:// resource: a missing source file
+    import shutil
+    for parallel in (False, True):
+        wit = {"builtin": "file", "parallel": parallel}
+        shutil.rmtree(root, ignore_errors=True)
+        shutil.rmtree(srcdir, ignore_errors=True)
+        os.makedirs(srcdir)
+        for k in ("A", "C"):
+            with open(os.path.join(srcdir, k), "wb") as fh:
+                fh.write(cl.content(k))
+        ctx.case(("builtin-file", parallel), nontrivial=True)
+        ctx.count("C19.faults_delivered")
+        with warnings.catch_warnings():
+            warnings.simplefilter("ignore")
+            cache = FileCache(root, 1e-3, parallel=parallel)
+            cache.disable_progress_bar = True
+            uris = [f"file://{srcdir}/{k}" for k in ("A", "B", "C")]
+            raised, paths = None, None
+            try:
+                paths = cache[uris]
+            except Exception as e:
+                raised = e
+                cl.quiesce()
+            if raised is None:
+                okp = len(paths) == 2 and all(cl.read_noatime(p) == cl.content(k) for k, p in zip(("A", "C"), paths))
+                ctx.check("C19.fault:request-omits-or-raises", bool(okp), wit, key="C19:builtin:file:omit")
+            else:
+                ctx.check("C19.fault:request-omits-or-raises", True)
+            with open(os.path.join(srcdir, "B"), "wb") as fh:
+                fh.write(cl.content("B"))
+            for reopen in (False, True):
+                if reopen:
+                    cache = FileCache(root, 1e-3, parallel=parallel)
+                    cache.disable_progress_bar = True
+                try:
+                    p2 = cache[uris]
+                    good = len(p2) == 3 and all(cl.read_noatime(p) == cl.content(k) for k, p in zip(("A", "B", "C"), p2))
+                    ctx.check("C19.retry:returned-bytes" if not reopen else "C19.reopen:served-bytes==resource-bytes", bool(good),
+                              wit, key="C19:builtin:file:retry")
+                except Exception as e:
+                    ctx.check("C19.retry:returned-bytes", False, wit, {"exception": repr(e)}, key="C19:builtin:file:retry")
+        # the source files are foreign files: never modified
+        ok_src = all(open(os.path.join(srcdir, k), "rb").read() == cl.content(k) for k in ("A", "B", "C"))
+        ctx.check("C19.fault:others-intact", ok_src, wit, key="C19:builtin:file:source")
+    shutil.rmtree(root, ignore_errors=True)
+    shutil.rmtree(srcdir, ignore_errors=True)
+
+
 def run_shard(ctx, shard):
     work = os.environ.get("VERIF_WORK", "/verif/.work")
+    if shard["mode"] == "builtin":
+        builtin_runs(ctx, work)
+        return
     if shard["mode"] == "bigreq":
         rng = ctx.rng()
         for _ in range(shard["n"]):
@@ -557,7 +732,9 @@ def run_shard(ctx, shard):
 
 def replay(ctx, case):
     work = os.environ.get("VERIF_WORK", "/verif/.work")
-    if "bigreq" in case:
+    if "builtin" in case:
+        builtin_runs(ctx, work)
+    elif "bigreq" in case:
         bigreq_run(ctx, case["bigreq"], work)
     elif case.get("crash"):
         crasher = LineCrasher()
